@@ -72,7 +72,11 @@ func (c *ctx) expand(ss *nast.SelectionSet, parent string, visited map[string]bo
 	for _, it := range ss.Items {
 		switch v := it.(type) {
 		case *nast.Field:
-			*out = append(*out, occ{f: v, parent: parent, def: c.fieldDef(parent, v.Name.Value)})
+			def := c.fieldDef(parent, v.Name.Value)
+			if c.o.TypenameUntyped && v.Name.Value == "__typename" {
+				def = nil
+			}
+			*out = append(*out, occ{f: v, parent: parent, def: def})
 		case *nast.InlineFragment:
 			c.expand(v.Sel, c.condParent(v.TypeCond, parent), visited, out)
 		case *nast.FragmentSpread:
@@ -154,7 +158,7 @@ func sameArguments(a, b []*nast.Argument) bool {
 	canon := func(as []*nast.Argument) []string {
 		var out []string
 		for _, x := range as {
-			out = append(out, x.Name.Value+":"+nast.PrintValue(x.Value))
+			out = append(out, x.Name.Value+":"+valueText(x.Value))
 		}
 		sort.Strings(out)
 		return out
@@ -221,14 +225,17 @@ func (r *overlapRun) shapeConflict(a, b occ) (why string, deeper []nast.Node) {
 			if responseKey(merged[i].f) != responseKey(merged[j].f) {
 				continue
 			}
+			// every conflicting pair is collected: a report may mention all of them
 			if w, d := r.shapeConflict(merged[i], merged[j]); w != "" {
 				deeper = append(deeper, merged[i].f, merged[j].f)
 				deeper = append(deeper, d...)
-				return "subfields " + responseKey(merged[i].f) + ": " + w, deeper
+				if why == "" {
+					why = "subfields " + responseKey(merged[i].f) + ": " + w
+				}
 			}
 		}
 	}
-	return "", nil
+	return why, deeper
 }
 
 // pairConflict decides one pair of fieldsForName.
@@ -246,33 +253,46 @@ func (r *overlapRun) pairConflict(a, b occ) *conflict {
 	r.mergeStack[k] = true
 	defer delete(r.mergeStack, k)
 	c := r.c
+	// The verdict follows the specification's order (shape first); the fields
+	// a report may mention are collected from every failing clause.
+	var cf *conflict
 	if why, deeper := r.shapeConflict(a, b); why != "" {
-		return &conflict{a: a, b: b, why: why, deeper: deeper}
+		cf = &conflict{a: a, b: b, why: why, deeper: deeper}
 	}
 	exclusive := a.parent != b.parent && c.isObject(a.parent) && c.isObject(b.parent)
 	if exclusive {
-		return nil
+		return cf
 	}
 	if a.f.Name.Value != b.f.Name.Value {
-		return &conflict{a: a, b: b, why: fmt.Sprintf("%s and %s are different fields", a.f.Name.Value, b.f.Name.Value)}
+		if cf == nil {
+			cf = &conflict{a: a, b: b, why: fmt.Sprintf("%s and %s are different fields", a.f.Name.Value, b.f.Name.Value)}
+		}
+		return cf
 	}
 	if !sameArguments(a.f.Args, b.f.Args) {
-		return &conflict{a: a, b: b, why: "differing arguments", optional: hasDupArgs(a.f.Args) || hasDupArgs(b.f.Args)}
+		if cf == nil {
+			cf = &conflict{a: a, b: b, why: "differing arguments", optional: hasDupArgs(a.f.Args) || hasDupArgs(b.f.Args)}
+		}
+		return cf
 	}
 	if a.f.Sel == nil && b.f.Sel == nil {
-		return nil
+		return cf
 	}
 	sub := r.conflictsIn(c.mergedSet(a, b))
 	if len(sub) == 0 {
-		return nil
+		return cf
 	}
-	cf := &conflict{a: a, b: b, why: "subfields conflict: " + sub[0].why, optional: true}
+	if cf == nil {
+		cf = &conflict{a: a, b: b, why: "subfields conflict: " + sub[0].why, optional: true}
+		for _, s := range sub {
+			if !s.optional {
+				cf.optional = false
+			}
+		}
+	}
 	for _, s := range sub {
 		cf.deeper = append(cf.deeper, s.a.f, s.b.f)
 		cf.deeper = append(cf.deeper, s.deeper...)
-		if !s.optional {
-			cf.optional = false
-		}
 	}
 	return cf
 }
